@@ -267,9 +267,15 @@ PROPS["C01"] = {
                   "what the universe says under a name is what the type checker says about the type of that name (lookup_faithful_v1/v2, "
                   "after any sequence of incremental loads). The hypotheses the theorems place on the facts (WellFormed, "
                   "Consistent) are decided per correspondence case by executable checks proved sound (Model/FactsCheck, "
-                  "Lemmas/FactsCheckSound) and the evidence counts the cases that meet them. PARTIAL: method sets "
-                  "are outside the kernel-checked description (the methods phase is proved to leave everything else intact); that equal "
-                  "node names mean equal types is go/types' String(). Complete canonical universe dumps of the real v1 and v2 loaders are compared with the model on "
+                  "Lemmas/FactsCheckSound) and the evidence counts the cases that meet them. Method sets are inside the description: "
+                  "an object filled from an interface node with methods carries exactly that node's method set (embedded methods "
+                  "included), and an object on which the methods phase of a defined type ran (recorded in ghost fields of the model) "
+                  "carries exactly that type's method set - for a generic declaration the origin's, F22 - each method bound to the "
+                  "object registered under the method's printed name, which is described by its signature node with parameters, "
+                  "results, variadic flag and receiver (interface_methods_faithful, defined_type_methods_faithful). PARTIAL: that the "
+                  "methods phase has run for every filled object registered under a defined type's name is by construction of the model "
+                  "(every walk that fills such an object ends in it), not a separate theorem; that equal node names mean equal types "
+                  "is go/types' String(). Complete canonical universe dumps of the real v1 and v2 loaders are compared with the model on "
                   "generated programs (incl. generics, methods, incremental loads with hand lookups), and an oracle walks go/types "
                   "independently and compares every reported attribute.",
     "level_note": _UNI_NOTE,
